@@ -42,21 +42,21 @@ Lemma contingency_is_counts A B size : 0 <= size -> wf_set A size -> wf_set B si
 Proof.
   intros Hs HA HB. unfold contingency_model.
   rewrite (mask_is_positive_coverage A size Hs HA), (mask_is_positive_coverage B size Hs HB).
-  unfold mask_spec, count_bases. rewrite !map_map. rewrite !zip_with_map2, !count_true_map. reflexivity.
+  unfold mask_spec, count_bases. rewrite !zip_with_map2, !count_true_map. reflexivity.
 Qed.
 
 Lemma jaccard_is_per_base A B size : 0 <= size -> wf_set A size -> wf_set B size ->
   jaccard_model A B size = Some (jaccard_spec A B size).
 Proof.
   intros Hs HA HB. unfold jaccard_model. rewrite (contingency_is_counts A B size Hs HA HB).
-  unfold jaccard_spec, count_bases. f_equal. f_equal.
+  unfold jaccard_spec, count_bases, m_jaccard_num, m_jaccard_den. f_equal. f_equal.
   rewrite <- (cnt_union (covered A) (covered B) (bases size)). lia.
 Qed.
 Lemma forbes_is_per_base A B size : 0 <= size -> wf_set A size -> wf_set B size ->
   forbes_model A B size = Some (forbes_spec A B size).
 Proof.
   intros Hs HA HB. unfold forbes_model. rewrite (contingency_is_counts A B size Hs HA HB).
-  unfold forbes_spec, count_bases. f_equal.
+  unfold forbes_spec, count_bases, m_forbes_num, m_forbes_den. f_equal.
   pose proof (cnt_total (covered A) (covered B) (bases size)) as Ht. rewrite (len_bases size Hs) in Ht.
   pose proof (cnt_split_l (covered A) (covered B) (bases size)) as Hl.
   pose proof (cnt_split_r (covered A) (covered B) (bases size)) as Hr.
